@@ -204,7 +204,111 @@ def {name}(xs: list[fp.Real], a: fp.Real):
     return P('list-argument', name, src, 'fp.FP64', [('list', 'f64'), 'f64'])
 
 
-GENERATORS = [gen_float_modes, gen_widen, gen_int_exact, gen_control, gen_lists, gen_list_arg]
+
+INT_RANGE = {'s8': (-128, 127), 'u8': (0, 255), 's16': (-32768, 32767), 'u16': (0, 65535),
+             's32': (-2 ** 31, 2 ** 31 - 1), 'u32': (0, 2 ** 32 - 1)}
+
+
+def gen_reduce(rng, i):
+    """sum / min / max over short lists of statically known length whose sum crosses a machine-type boundary:
+    every integer rung under REAL or a wider integer context, binary32 elements under a binary64 context"""
+    kind = ['s8', 'u8', 's16', 'u16', 's32', 'u32', 'f32'][i % 7] if rng.random() < 0.85 else rng.choice(['s8', 's16', 'f32'])
+    n = rng.choice([2, 2, 3, 4])
+    vs = [f'a{k}' for k in range(n)]
+    if kind == 'f32':
+        scope = rng.choice(['fp.FP64', 'fp.IEEEContext(11, 64, fp.RM.RTZ)'])
+    else:
+        wider = {'s8': ['fp.SINT16', 'fp.SINT32'], 'u8': ['fp.UINT16', 'fp.SINT16'], 's16': ['fp.SINT32'], 'u16': ['fp.UINT32', 'fp.SINT32'],
+                 's32': ['fp.SINT64'], 'u32': ['fp.SINT64', 'fp.UINT64']}[kind]
+        scope = rng.choice(['fp.REAL', 'fp.REAL'] + wider)
+    name = f'rd{i}'
+    extra = rng.choice(['s - a0', 's + a1', 's * 1'])
+    src = f'''@fp.fpy
+def {name}({", ".join(v + ": fp.Real" for v in vs)}):
+    with {scope}:
+        xs = [{", ".join(vs)}]
+        s = sum(xs)
+        lo = min(xs)
+        hi = max(xs)
+        t = {extra}
+    return s, lo, hi, t, s < hi'''
+    p = P('reductions-at-type-boundaries', name, src, 'fp.FP64', [kind] * n)
+    p.boundary = True
+    return p
+
+
+def gen_sibling_modes(rng, i):
+    """sibling scopes, branch arms and loop bodies that repeat the same directed rounding mode"""
+    es, nb, kind = rng.choice([(8, 32, 'f32'), (11, 64, 'f64'), (11, 64, 'f64')])
+    rm, rm2 = rng.choice(RMS[1:]), rng.choice(RMS[1:])
+    C = f'fp.IEEEContext({es}, {nb}, fp.RM.{rm})'
+    C2 = f'fp.IEEEContext({es}, {nb}, fp.RM.{rm2})'
+    o1, o2, o3, o4 = (rng.choice(['+', '-', '*', '/']) for _ in range(4))
+    name = f'sb{i}'
+    src = f'''@fp.fpy
+def {name}(a0: fp.Real, a1: fp.Real):
+    with {C}:
+        t1 = a0 {o1} a1
+    with {C}:
+        t2 = t1 {o2} a1
+    if a0 > {rng.choice(['0', '1', '100', '-2'])}:
+        with {C2}:
+            t3 = t2 / a1
+    else:
+        with {C2}:
+            t3 = t2 * a0
+    with {C2}:
+        t4 = t3 {o3} a0
+    acc = a0
+    for i in range({rng.choice([2, 3])}):
+        with {C}:
+            acc = acc / 3 {o4} a1
+    with {C}:
+        t5 = fp.sqrt(abs(acc)) + t4
+    return t1, t2, t3, t4, acc, t5'''
+    p = P('sibling-scopes-same-mode', name, src, f'fp.IEEEContext({es}, {nb}, fp.RM.RNE)', [kind, kind])
+    p.inexact = True
+    return p
+
+
+def gen_nested(rng, i):
+    """lists nested 2 and 3 deep, names bound at each depth, a slot replaced at each depth, a helper writing through"""
+    name = f'ns{i}'
+    a, b, c = rng.randint(0, 1), rng.randint(0, 1), rng.randint(0, 1)
+    d = rng.randint(0, 1)
+    rep3 = rng.choice(['slot2', 'slot1', 'elem'])
+    if rep3 == 'slot2':
+        replace3 = f'xsss[{a}][{b}] = ys'
+    elif rep3 == 'slot1':
+        replace3 = f'xsss[{a}] = [ys, [a1, a1]]'
+    else:
+        replace3 = f'xsss[{a}][{b}][{c}] = a0 * 4'
+    rep2 = rng.choice([f'xss[{d}] = ys', f'xss[{d}][{c}] = a1 * 8', f'xss[{1 - d}] = ys'])
+    src = f'''@fp.fpy
+def {name}_poke(zs: list[fp.Real], v: fp.Real):
+    zs[{c}] = v
+    return zs[{1 - c}]
+
+@fp.fpy
+def {name}(a0: fp.Real, a1: fp.Real):
+    xsss = [[[a0, a1], [a1, a0]], [[a0, a0], [a1, a1]]]
+    ys = [a1 * 2, a0 * 2]
+    plane = xsss[{a}]
+    row = xsss[{a}][{b}]
+    {replace3}
+    h = {name}_poke(row, a0 + a1)
+    r1 = row[0] + xsss[{a}][{b}][1]
+    p1 = plane[{b}][{c}]
+    xss = [[a0, a1], [a1, a0]]
+    line = xss[{d}]
+    {rep2}
+    g = {name}_poke(line, a0 - a1)
+    ys[{c}] = h + g
+    return r1, row[0], row[1], xsss[{a}][{b}][0], xsss[{a}][{b}][1], p1, h, line[0], line[1], xss[{d}][0], xss[{d}][1], ys[0], ys[1], len(xsss[{a}])'''
+    return P('nested-lists-slot-replacement', name, src, 'fp.FP64', ['f64', 'f64'])
+
+
+GENERATORS = [gen_float_modes, gen_widen, gen_int_exact, gen_control, gen_lists, gen_list_arg, gen_reduce, gen_sibling_modes, gen_nested]
 
 
 # ---------------------------------------------------------------- argument values
@@ -233,9 +337,9 @@ def sample_arg(rng, kind, special):
         else:
             v = rng.gauss(0, 8) * 10 ** rng.randint(-3, 3)
         return to_f32(v) if kind == 'f32' else v
-    lo, hi = {'s8': (-128, 127), 'u8': (0, 255), 's16': (-32768, 32767), 's32': (-2 ** 31, 2 ** 31 - 1)}[kind]
+    lo, hi = INT_RANGE[kind]
     if special or rng.random() < 0.4:
-        return rng.choice([lo, hi, 0, 1, -1 if lo < 0 else 2])
+        return rng.choice([lo, hi, hi, hi - 1, lo + 1, 0, 1, -1 if lo < 0 else 2, (hi + 1) // 2, hi - 27])
     return rng.randint(max(lo, -300), min(hi, 300))
 
 
@@ -341,7 +445,8 @@ def run_differential(ck, rng, thorough):
     finally:
         sys.path.remove(str(ck.dir))
 
-    kind_ctx = {'f32': fp.FP32, 'f64': fp.FP64, 's8': fp.SINT8, 'u8': fp.UINT8, 's16': fp.SINT16, 's32': fp.SINT32}
+    kind_ctx = {'f32': fp.FP32, 'f64': fp.FP64, 's8': fp.SINT8, 'u8': fp.UINT8, 's16': fp.SINT16, 's32': fp.SINT32,
+                'u16': fp.UINT16, 'u32': fp.UINT32}
 
     def arg_type(kind):
         if isinstance(kind, tuple):
@@ -365,7 +470,17 @@ def run_differential(ck, rng, thorough):
         for s in range(nvec * 3):
             if len(samples) >= nvec:
                 break
-            args = [sample_arg(rng, k, s < 4) for k in p.args]
+            if getattr(p, 'boundary', False):
+                args = [sample_arg(rng, k, rng.random() < 0.75) for k in p.args]
+                if p.args[0] == 'f32' and s % 3 == 0:
+                    args = [rng.choice([3.4028234663852886e38, -3.4028234663852886e38, 16777216.0, 16777217.0 - 1, 1.0, 0.1])
+                            for _ in p.args]
+                    args = [to_f32(a) for a in args]
+            elif getattr(p, 'inexact', False) and s >= 2:
+                # inputs on which the directed modes and round-to-nearest differ
+                args = [(to_f32 if k == 'f32' else float)(rng.choice([-1, 1]) * (rng.random() * 10 + 0.1) * 10 ** rng.randint(-2, 3)) for k in p.args]
+            else:
+                args = [sample_arg(rng, k, s < 4) for k in p.args]
             last, flags = {}, set()
 
             def sink(e, value, last=last, flags=flags):
